@@ -437,9 +437,6 @@ package http2
 //@ # the decoding tree is built once, by the initialiser of rootHuffmanNode, and never assigned again (checked over the SSA)
 //@ globalinvariant rootHuffmanNode root: self != nil && len(self.sub) == 256 && spec.hid(self) == 0
 
-//@ macro hpadok(a, k) = k == 0 || (k == 1 && a % 2 == 1) || (k == 2 && a % 4 == 3) || (k == 3 && a % 8 == 7) || (k == 4 && a % 16 == 15) ||
-//@ |   (k == 5 && a % 32 == 31) || (k == 6 && a % 64 == 63) || (k == 7 && a % 128 == 127)
-
 //@ func HuffmanDecode
 //@ props C15 C16 C03
 //@ modifies capacity(dst)
@@ -479,7 +476,14 @@ package http2
 //@ |   len(dst) == atiter(len(dst)) + 1 && dst[len(dst) - 1] == spec.hsym(n2, i2) && bitsLeft == bits
 //@ # what is accepted ends with fewer than eight bits that belong to no symbol, all of them 1 (RFC 7541 5.2)
 //@ ensures leftok: r1 == nil ==> local(bitsLeft) <= 7
-//@ ensures pad: r1 == nil ==> local(bits) <= 7 && hpadok(local(accBits), local(bits))
+//@ ensures padlen: r1 == nil ==> local(bits) <= 7
+//@ ensures pad1: r1 == nil && local(bits) == 1 ==> local(accBits) % 2 == 1
+//@ ensures pad2: r1 == nil && local(bits) == 2 ==> local(accBits) % 4 == 3
+//@ ensures pad3: r1 == nil && local(bits) == 3 ==> local(accBits) % 8 == 7
+//@ ensures pad4: r1 == nil && local(bits) == 4 ==> local(accBits) % 16 == 15
+//@ ensures pad5: r1 == nil && local(bits) == 5 ==> local(accBits) % 32 == 31
+//@ ensures pad6: r1 == nil && local(bits) == 6 ==> local(accBits) % 64 == 63
+//@ ensures pad7: r1 == nil && local(bits) == 7 ==> local(accBits) % 128 == 127
 //@ ensures keep: r1 == nil ==> len(r0) >= len(dst) && r0[:len(dst)] == old(dst)
 //@ ensures err: r1 != nil ==> r0 == nil
 //@ ensures bound: r1 == nil ==> len(r0) - len(dst) <= 8 * len(src)
@@ -940,6 +944,11 @@ package http2
 //@ loop 0: invariant place: dynplace(sc.dec)
 //@ loop 0: invariant ptrs: hf != nil && strm != nil && sc != nil && fr != nil && req != nil && strm.ctx != nil
 //@ loop 0: invariant cnt: fieldsProcessed >= 0
+//@ # RFC 7540 4.3: a header block is decompressed in full even when the request turns out to be malformed and only its
+//@ # stream is reset - the dynamic table is shared by every later block. Each place that gives up on the request is
+//@ # checked for having nothing of the block left (C09)
+//@ assert@call:NewResetStreamError#* consumed: len(b) == 0
+//@ route consumed C09
 //@ # every field that comes out of the decoder, pseudo-header fields included, is charged name + value + 32 (RFC 7540 6.5.2)
 //@ # before anything else is done with it: the limit is on the list the handler gets, not on part of it
 //@ ghost sum = 0
